@@ -9,7 +9,8 @@ from vlib.core import uniq
 RULE = ('(i) complete grid: interface method signature (required 0-3, '
         'optional 0-2, *args, **kw) x implementation signature (required 0-4, '
         'optional 0-3, *args, **kw) x mode {function on the instance, bound '
-        'method, verifyClass, staticmethod} = 15360 pairs, oracle = '
+        'method, verifyClass, staticmethod} = 15360 pairs, plus methods whose '
+        'self is swallowed by *args or defaulted, oracle = '
         'inspect.signature(impl).bind over every call shape the interface '
         'admits; (ii) Hypothesis-generated interface hierarchies and candidates '
         'with several simultaneous faults, oracle = expected set of individual '
@@ -17,7 +18,11 @@ RULE = ('(i) complete grid: interface method signature (required 0-3, '
         'arity rules, or a candidate with >=2 faults; distinct by SHA-1')
 
 EXHAUSTIVE = True
-MODES = ['inst_func', 'bound', 'class', 'static']
+MODES = ['inst_func', 'bound', 'class', 'static',
+         # methods whose first parameter is not a plain required one: self
+         # swallowed by *args (a pass-through wrapper) or defaulted
+         # (seed C17f)
+         'bound_starself', 'bound_defself', 'class_starself']
 
 
 def configs(tier, seed):
@@ -38,6 +43,20 @@ def coverage_extra(tier):
 
 def enumerate_cases(cfg):
     mode = cfg['grid_mode']
+    if mode in ('bound_starself', 'class_starself', 'bound_defself'):
+        for ir in range(4):
+            for io in range(3):
+                for iv in (0, 1):
+                    for ik in (0, 1):
+                        for mo in (range(1) if 'starself' in mode
+                                   else range(4)):
+                            for mv in ((1,) if 'starself' in mode
+                                       else (0, 1)):
+                                for mk in (0, 1):
+                                    yield {'t': 'grid', 'mode': mode,
+                                           'iface': [ir, io, iv, ik],
+                                           'impl': [0, mo, mv, mk]}
+        return
     for ir in range(4):
         for io in range(3):
             for iv in (0, 1):
@@ -109,7 +128,19 @@ def _grid_case(case, out):
     iface = InterfaceClass(uniq('IC17_'), (Interface,), {'meth': ifunc},
                            __module__='verif.c17')
     with_self = mode in ('bound', 'class')
-    mfunc = _compile('meth', _sig_src(mr, mo, mv, mk, 'm', with_self))
+    if mode in ('bound_starself', 'class_starself'):
+        ns = {}
+        exec('def meth(%s):\n    result = None\n    return result\n' %
+             _sig_src(0, 0, 1, mk, 'm'), ns)
+        mfunc = ns['meth']
+    elif mode == 'bound_defself':
+        ns = {}
+        exec('def meth(self=None%s):\n    result = None\n    return result'
+             '\n' % ''.join(', ' + p for p in
+                            [_sig_src(0, mo, mv, mk, 'm')] if p), ns)
+        mfunc = ns['meth']
+    else:
+        mfunc = _compile('meth', _sig_src(mr, mo, mv, mk, 'm', with_self))
 
     if mode == 'inst_func':
         cls = implementer(iface)(type('Cand', (), {}))
@@ -117,12 +148,12 @@ def _grid_case(case, out):
         cand.meth = mfunc
         callsig = inspect.signature(mfunc)
         verify = verifyObject
-    elif mode == 'bound':
+    elif mode in ('bound', 'bound_starself', 'bound_defself'):
         cls = implementer(iface)(type('Cand', (), {'meth': mfunc}))
         cand = cls()
         callsig = inspect.signature(cand.meth)
         verify = verifyObject
-    elif mode == 'class':
+    elif mode in ('class', 'class_starself'):
         cls = implementer(iface)(type('Cand', (), {'meth': mfunc}))
         cand = cls
         callsig = inspect.signature(cls().meth)
@@ -162,7 +193,7 @@ def _grid_case(case, out):
                  'interface meth(%s), implementation meth(%s), mode %s: '
                  'verification %s but call shapes %s' % (
                      _sig_src(ir, io, iv, ik, 'i'),
-                     _sig_src(mr, mo, mv, mk, 'm', with_self), mode,
+                     str(inspect.signature(mfunc)), mode,
                      'succeeded' if got else 'failed',
                      'all bind' if ok else 'do not all bind: %r' % (
                          [(a, kw) for a, kw in shapes
